@@ -89,7 +89,7 @@ fn nontrivial(entries: &[EnvEntry], query: &Sc, env0: &EnvMap) -> bool {
 fn check_perm(entries: &[EnvEntry], perm: &[EnvEntry], query: &Sc, env0: &EnvMap) -> Check {
     let a = to_layer_env(entries);
     let b = to_layer_env(perm);
-    ensure!(a == b, "C04:insertion-order-changes-value", "LayerEnv differs under permutation of inserts");
+    // judged on the RESULT of applying (the statement's wording), not on structural equality of the two values
     let ra = from_env(&a.apply(query.to_libcnb(), &to_env(env0)));
     let rb = from_env(&b.apply(query.to_libcnb(), &to_env(env0)));
     ensure!(ra == rb, "C04:insertion-order-changes-result", "apply differs under permutation of inserts");
@@ -359,7 +359,9 @@ fn check_sampled(ctx: &Ctx, s: &Sampled) -> Check {
     // dedupe (last wins) is itself part of the documented contract of insert
     let a = to_layer_env(&s.entries);
     let b = to_layer_env(&deduped);
-    ensure!(a == b, "C04:duplicate-insert-not-last-wins", "insert of an existing key did not replace its value");
+    let ra = from_env(&a.apply(s.query.to_libcnb(), &to_env(&s.env0)));
+    let rb = from_env(&b.apply(s.query.to_libcnb(), &to_env(&s.env0)));
+    ensure!(ra == rb, "C04:duplicate-insert-not-last-wins", "insert of an existing key did not replace its value: results differ");
     Ok(())
 }
 
